@@ -1,4 +1,5 @@
 //! vvh - conformance harness binding the TLA+ specifications in /verif/spec to meshless_voronoi.
+mod clip;
 mod common;
 mod latt;
 mod nn;
@@ -18,6 +19,8 @@ fn main() {
         "tess" => tess::main_tess(rest),
         "sched" => sched::main_sched(rest),
         "nn" => nn::main_nn(rest),
+        "clip" => clip::main_clip(rest),
+        "dump-lattice" => latt::main_dump(rest),
         other => {
             eprintln!("unknown subcommand {}", other);
             2
